@@ -32,20 +32,30 @@ structure Keeps (s s' : St) : Prop where
   ev : ∀ x e, s.get x = some e → ∃ e', s'.get x = some e' ∧
         (e.round.isSome → e'.round = e.round ∧ e'.wit = e.wit) ∧ (e.lamport.isSome → e'.lamport = e.lamport) ∧
         e'.rr = e.rr
+  /-- an event that was not there has no round received afterwards -/
+  fresh : ∀ x, s.get x = none → ∀ e', s'.get x = some e' → e'.rr = none
 
-theorem Keeps.refl (s : St) : Keeps s s := ⟨fun _ e h => ⟨e, h, fun _ => ⟨rfl, rfl⟩, fun _ => rfl, rfl⟩⟩
+theorem Keeps.refl (s : St) : Keeps s s :=
+  ⟨fun _ e h => ⟨e, h, fun _ => ⟨rfl, rfl⟩, fun _ => rfl, rfl⟩, fun x h e' h' => by rw [h] at h'; cases h'⟩
 
 theorem Keeps.trans {a b c : St} (h1 : Keeps a b) (h2 : Keeps b c) : Keeps a c := by
-  refine ⟨fun x e hx => ?_⟩
-  obtain ⟨e1, hg1, hr1, hl1, hrr1⟩ := h1.ev x e hx
-  obtain ⟨e2, hg2, hr2, hl2, hrr2⟩ := h2.ev x e1 hg1
-  refine ⟨e2, hg2, fun h => ?_, fun h => ?_, hrr2.trans hrr1⟩
-  · have := hr1 h
-    have h' : e1.round.isSome := by rw [this.1]; exact h
-    exact ⟨(hr2 h').1.trans this.1, (hr2 h').2.trans this.2⟩
-  · have := hl1 h
-    have h' : e1.lamport.isSome := by rw [this]; exact h
-    exact (hl2 h').trans this
+  refine ⟨fun x e hx => ?_, fun x hx e'' hc => ?_⟩
+  · obtain ⟨e1, hg1, hr1, hl1, hrr1⟩ := h1.ev x e hx
+    obtain ⟨e2, hg2, hr2, hl2, hrr2⟩ := h2.ev x e1 hg1
+    refine ⟨e2, hg2, fun h => ?_, fun h => ?_, hrr2.trans hrr1⟩
+    · have := hr1 h
+      have h' : e1.round.isSome := by rw [this.1]; exact h
+      exact ⟨(hr2 h').1.trans this.1, (hr2 h').2.trans this.2⟩
+    · have := hl1 h
+      have h' : e1.lamport.isSome := by rw [this]; exact h
+      exact (hl2 h').trans this
+  · cases hb : b.get x with
+    | none => exact h2.fresh x hb e'' hc
+    | some e' =>
+      have h1' := h1.fresh x hx e' hb
+      obtain ⟨e2, hg2, _, _, hrr2⟩ := h2.ev x e' hb
+      rw [hc] at hg2; injection hg2 with hg2; subst hg2
+      rw [hrr2]; exact h1'
 
 /-- a step that maps every event record through `g` -/
 theorem Keeps.of_map (s s' : St) (g : Ev → Ev) (hget : ∀ x, s'.get x = (s.get x).map g)
@@ -53,7 +63,8 @@ theorem Keeps.of_map (s s' : St) (g : Ev → Ev) (hget : ∀ x, s'.get x = (s.ge
       (e.round.isSome → (g e).round = e.round ∧ (g e).wit = e.wit) ∧ (e.lamport.isSome → (g e).lamport = e.lamport) ∧
       (g e).rr = e.rr) :
     Keeps s s' :=
-  ⟨fun x e hx => ⟨g e, by rw [hget, hx]; rfl, (hg x e hx).1, (hg x e hx).2.1, (hg x e hx).2.2⟩⟩
+  ⟨fun x e hx => ⟨g e, by rw [hget, hx]; rfl, (hg x e hx).1, (hg x e hx).2.1, (hg x e hx).2.2⟩,
+   fun x hx e' he' => by rw [hget, hx] at he'; cases he'⟩
 
 /-- an update of one event that respects what is already set -/
 theorem Keeps.update (s : St) (id : String) (f : Ev → Ev) (hid : ∀ e, (f e).id = e.id)
@@ -84,7 +95,8 @@ theorem foldl_keeps_fst {α β} (f : St × β → α → St × β) (h : ∀ p a,
 
 /-- a step that does not touch the events -/
 theorem Keeps.of_events {s s' : St} (h : s'.events = s.events) : Keeps s s' :=
-  ⟨fun x e hx => ⟨e, by rw [get_of_events h]; exact hx, fun _ => ⟨rfl, rfl⟩, fun _ => rfl, rfl⟩⟩
+  ⟨fun x e hx => ⟨e, by rw [get_of_events h]; exact hx, fun _ => ⟨rfl, rfl⟩, fun _ => rfl, rfl⟩,
+   fun x hx e' he' => by rw [get_of_events h, hx] at he'; cases he'⟩
 
 /-! ### InsertEvent -/
 
@@ -119,15 +131,30 @@ theorem get_cons_ne (s : St) (e' : Ev) (x : String) (hne : e'.id ≠ x) :
     have : (e'.id == x) = false := by simpa using hne
     rw [this]
 
-theorem cons_keeps (s : St) (e' : Ev) (hf : s.get e'.id = none) : Keeps s { s with events := e' :: s.events } := by
-  refine ⟨fun x e hx => ⟨e, ?_, fun _ => ⟨rfl, rfl⟩, fun _ => rfl, rfl⟩⟩
-  have hne : e'.id ≠ x := fun h => by rw [h, hx] at hf; cases hf
-  rw [get_cons_ne s e' x hne]; exact hx
+theorem get_cons_eq (s : St) (e' : Ev) (hne : e'.id ≠ "") :
+    St.get { s with events := e' :: s.events } e'.id = some e' := by
+  unfold St.get
+  simp only []
+  have : (e'.id == "") = false := by simpa using hne
+  rw [this]
+  simp
 
-theorem insert_keeps (s : St) (e : Ev) (hf : s.get e.id = none) : Keeps s (s.insert e) := by
+theorem cons_keeps (s : St) (e' : Ev) (hf : s.get e'.id = none) (hrr : e'.rr = none) :
+    Keeps s { s with events := e' :: s.events } := by
+  refine ⟨fun x e hx => ⟨e, ?_, fun _ => ⟨rfl, rfl⟩, fun _ => rfl, rfl⟩, fun x hx e'' he'' => ?_⟩
+  · have hne : e'.id ≠ x := fun h => by rw [h, hx] at hf; cases hf
+    rw [get_cons_ne s e' x hne]; exact hx
+  · by_cases hne : e'.id = x
+    · subst hne
+      by_cases hemp : e'.id = ""
+      · unfold St.get at he''; simp [hemp] at he''
+      · rw [get_cons_eq s e' hemp] at he''; injection he'' with he''; rw [← he'']; exact hrr
+    · rw [get_cons_ne s e' x hne, hx] at he''; cases he''
+
+theorem insert_keeps (s : St) (e : Ev) (hf : s.get e.id = none) (hrr : e.rr = none) : Keeps s (s.insert e) := by
   unfold St.insert St.insertCoords
   simp only []
-  have h0 := cons_keeps s { e with la := s.initLa e, fd := setAt [] e.creator (some e.index) } hf
+  have h0 := cons_keeps s { e with la := s.initLa e, fd := setAt [] e.creator (some e.index) } hf hrr
   have h1 := foldl_keeps (walkOne e.creator e.index) (walkOne_keeps e.creator e.index)
     (s.initLa e) { s with events := { e with la := s.initLa e, fd := setAt [] e.creator (some e.index) } :: s.events }
   exact (h0.trans h1).trans (Keeps.of_events rfl)
@@ -213,5 +240,486 @@ theorem divideOne_keeps (s : St) (id : String) : Keeps s (divideOne s id) := by
       · simp only [hl, Bool.false_eq_true, if_false]; exact Keeps.refl s
 
 theorem divideRounds_keeps (s : St) : Keeps s s.divideRounds := foldl_keeps _ divideOne_keeps _ _
+
+/-! ### DecideFame, ProcessDecidedRounds: the events are not touched -/
+
+theorem decideFameRound_events (p : St × List Int) (pr : Int × Bool) : (decideFameRound p pr).1.events = p.1.events := by
+  unfold decideFameRound
+  simp only []
+  split <;> rfl
+
+theorem decideFame_keeps (s : St) : Keeps s s.decideFame := by
+  unfold St.decideFame
+  have := foldl_keeps_fst decideFameRound (fun p pr => Keeps.of_events (decideFameRound_events p pr)) s.pending (s, [])
+  revert this
+  generalize s.pending.foldl decideFameRound (s, []) = p
+  intro h
+  exact h.trans (Keeps.of_events rfl)
+
+theorem processOne_keeps (s s' : St) (h : s.processOne = some s') : Keeps s s' := by
+  obtain ⟨_, _, _, _, _, hrin, _⟩ := processOne_fields s s' h
+  have : s'.events = s.events := congrArg (fun t => t.2.2.1) hrin
+  exact Keeps.of_events this
+
+theorem processLoop_keeps (fuel : Nat) (s : St) : Keeps s (s.processLoop fuel) := by
+  induction fuel generalizing s with
+  | zero => exact Keeps.refl s
+  | succ fuel ih =>
+    unfold St.processLoop
+    cases h : s.processOne with
+    | none => exact Keeps.refl s
+    | some s' => exact (processOne_keeps s s' h).trans (ih s')
+
+/-! ## the round received -/
+
+/-- what is set stays: the statement of finality for one step -/
+structure Final (s s' : St) : Prop where
+  ev : ∀ x e, s.get x = some e → ∃ e', s'.get x = some e' ∧
+        (e.round.isSome → e'.round = e.round ∧ e'.wit = e.wit) ∧ (e.lamport.isSome → e'.lamport = e.lamport) ∧
+        (e.rr.isSome → e'.rr = e.rr)
+
+theorem Keeps.final {s s' : St} (h : Keeps s s') : Final s s' :=
+  ⟨fun x e hx => by obtain ⟨e', hg, h1, h2, h3⟩ := h.ev x e hx; exact ⟨e', hg, h1, h2, fun _ => h3⟩⟩
+
+theorem Final.refl (s : St) : Final s s := (Keeps.refl s).final
+
+theorem Final.trans {a b c : St} (h1 : Final a b) (h2 : Final b c) : Final a c := by
+  refine ⟨fun x e hx => ?_⟩
+  obtain ⟨e1, hg1, hr1, hl1, hrr1⟩ := h1.ev x e hx
+  obtain ⟨e2, hg2, hr2, hl2, hrr2⟩ := h2.ev x e1 hg1
+  refine ⟨e2, hg2, fun h => ?_, fun h => ?_, fun h => ?_⟩
+  · have := hr1 h
+    have h' : e1.round.isSome := by rw [this.1]; exact h
+    exact ⟨(hr2 h').1.trans this.1, (hr2 h').2.trans this.2⟩
+  · have := hl1 h
+    have h' : e1.lamport.isSome := by rw [this]; exact h
+    exact (hl2 h').trans this
+  · have := hrr1 h
+    have h' : e1.rr.isSome := by rw [this]; exact h
+    exact (hrr2 h').trans this
+
+/-- the search for the round received of `x` touches the record of `x` only, and only when it
+    succeeds -/
+theorem rrLoop_get (s : St) (x : String) (fuel : Nat) (i : Int) :
+    (∀ y, y ≠ x → (s.rrLoop x fuel i).1.get y = s.get y) ∧
+    ((s.rrLoop x fuel i).2 = false → ∀ y, (s.rrLoop x fuel i).1.get y = s.get y) ∧
+    (∀ e, s.get x = some e → ∃ e', (s.rrLoop x fuel i).1.get x = some e' ∧
+        e'.round = e.round ∧ e'.wit = e.wit ∧ e'.lamport = e.lamport) := by
+  induction fuel generalizing s i with
+  | zero => exact ⟨fun _ _ => rfl, fun _ _ => rfl, fun e he => ⟨e, he, rfl, rfl, rfl⟩⟩
+  | succ fuel ih =>
+    unfold St.rrLoop
+    by_cases hgt : i > s.lastRound
+    · rw [if_pos hgt]; exact ⟨fun _ _ => rfl, fun _ _ => rfl, fun e he => ⟨e, he, rfl, rfl, rfl⟩⟩
+    · rw [if_neg hgt]
+      cases hg : s.getRound i with
+      | none =>
+        simp only []
+        split
+        · exact ⟨fun _ _ => rfl, fun _ _ => rfl, fun e he => ⟨e, he, rfl, rfl, rfl⟩⟩
+        · split
+          · exact ⟨fun _ _ => rfl, fun _ _ => rfl, fun e he => ⟨e, he, rfl, rfl, rfl⟩⟩
+          · exact ih _ _
+      | some tr =>
+        simp only []
+        -- the table update does not touch the events
+        have hsr : ∀ y, (s.setRound i (tr.witnessesDecided (s.peersAt i)).2).get y = s.get y :=
+          fun y => get_of_events (setRound_events _ _ _) y
+        have ih' := ih (s.setRound i (tr.witnessesDecided (s.peersAt i)).2) (i + 1)
+        have lift : ∀ {q : St × Bool},
+            ((∀ y, y ≠ x → q.1.get y = (s.setRound i (tr.witnessesDecided (s.peersAt i)).2).get y) ∧
+             (q.2 = false → ∀ y, q.1.get y = (s.setRound i (tr.witnessesDecided (s.peersAt i)).2).get y) ∧
+             (∀ e, (s.setRound i (tr.witnessesDecided (s.peersAt i)).2).get x = some e → ∃ e', q.1.get x = some e' ∧
+                e'.round = e.round ∧ e'.wit = e.wit ∧ e'.lamport = e.lamport)) →
+            ((∀ y, y ≠ x → q.1.get y = s.get y) ∧ (q.2 = false → ∀ y, q.1.get y = s.get y) ∧
+             (∀ e, s.get x = some e → ∃ e', q.1.get x = some e' ∧
+                e'.round = e.round ∧ e'.wit = e.wit ∧ e'.lamport = e.lamport)) := by
+          intro q ⟨h1, h2, h3⟩
+          exact ⟨fun y hy => (h1 y hy).trans (hsr y), fun hq y => (h2 hq y).trans (hsr y), fun e he => h3 e (by rw [hsr]; exact he)⟩
+        have same : ((∀ y, y ≠ x → (s.setRound i (tr.witnessesDecided (s.peersAt i)).2).get y = s.get y) ∧
+             (false = false → ∀ y, (s.setRound i (tr.witnessesDecided (s.peersAt i)).2).get y = s.get y) ∧
+             (∀ e, s.get x = some e → ∃ e', (s.setRound i (tr.witnessesDecided (s.peersAt i)).2).get x = some e' ∧
+                e'.round = e.round ∧ e'.wit = e.wit ∧ e'.lamport = e.lamport)) :=
+          ⟨fun y _ => hsr y, fun _ y => hsr y, fun e he => ⟨e, by rw [hsr]; exact he, rfl, rfl, rfl⟩⟩
+        by_cases hd : (tr.witnessesDecided (s.peersAt i)).1 = true
+        · simp only [hd, Bool.not_true, Bool.false_eq_true, if_false]
+          split
+          · -- received: x gets its round received
+            refine And.intro (fun y hy => ?_) (And.intro (fun hq => by cases hq) (fun e he => ?_))
+            · show (St.setRound _ i _).get y = s.get y
+              rw [get_of_events (setRound_events _ _ _), get_update _ x (fun e => { e with rr := some i }) (fun _ => rfl), hsr]
+              cases hgy : s.get y with
+              | none => rfl
+              | some ey =>
+                have hc : ¬ ey.id = x := by rw [get_id hgy]; exact hy
+                simp [hc]
+            · refine ⟨{ e with rr := some i }, ?_, rfl, rfl, rfl⟩
+              show (St.setRound _ i _).get x = _
+              rw [get_of_events (setRound_events _ _ _), get_update _ x (fun e => { e with rr := some i }) (fun _ => rfl), hsr, he]
+              have hc : e.id = x := get_id he
+              simp [hc]
+          · exact lift ih'
+        · simp only [hd, Bool.not_false, if_true]
+          split
+          · exact same
+          · split
+            · exact same
+            · exact lift ih'
+
+/-! ## undetermined events have no round received -/
+
+def NInv (s : St) : Prop := ∀ x ∈ s.undet, ∀ e, s.get x = some e → e.rr = none
+
+theorem Keeps.rr_none {s s' : St} (h : Keeps s s') (x : String) (hx : ∀ e, s.get x = some e → e.rr = none) :
+    ∀ e', s'.get x = some e' → e'.rr = none := by
+  intro e' he'
+  cases hg : s.get x with
+  | none => exact h.fresh x hg e' he'
+  | some e =>
+    obtain ⟨e2, hg2, _, _, hrr⟩ := h.ev x e hg
+    rw [he'] at hg2; injection hg2 with hg2; subst hg2
+    rw [hrr]; exact hx e hg
+
+theorem Keeps.ninv {s s' : St} (h : Keeps s s') (hu : s'.undet = s.undet) (hI : NInv s) : NInv s' := by
+  intro x hx
+  rw [hu] at hx
+  exact h.rr_none x (hI x hx)
+
+theorem processOne_undet (s s' : St) (h : s.processOne = some s') : s'.undet = s.undet := by
+  unfold St.processOne at h
+  split at h
+  · cases h
+  · split at h
+    · cases h
+    · split at h
+      · cases h
+      · simp only [] at h
+        split at h
+        · injection h with h; subst h
+          show (St.addBlock _ _).undet = s.undet
+          unfold St.addBlock; rw [applyReceipts_undet]; rfl
+        · injection h with h; subst h; rfl
+
+theorem processLoop_undet (fuel : Nat) (s : St) : (s.processLoop fuel).undet = s.undet := by
+  induction fuel generalizing s with
+  | zero => rfl
+  | succ fuel ih =>
+    unfold St.processLoop
+    cases h : s.processOne with
+    | none => rfl
+    | some s' => simp only []; rw [ih s', processOne_undet s s' h]
+
+/-- the invariant in the middle of `DecideRoundReceived` -/
+structure GInv (s0 st : St) (acc rest : List String) : Prop where
+  nd : (acc ++ rest).Nodup
+  none : ∀ y ∈ acc ++ rest, ∀ e, st.get y = some e → e.rr = none
+  fin : Final s0 st
+
+theorem receiveOne_ginv (s0 : St) (p : St × List String) (x : String) (rest : List String)
+    (h : GInv s0 p.1 p.2 (x :: rest)) : GInv s0 (receiveOne p x).1 (receiveOne p x).2 rest := by
+  unfold receiveOne
+  simp only []
+  obtain ⟨hne, hfalse, hx3⟩ := rrLoop_get p.1 x (p.1.lastRound - p.1.roundOf x + 1).toNat (p.1.roundOf x + 1)
+  revert hne hfalse hx3
+  generalize p.1.rrLoop x (p.1.lastRound - p.1.roundOf x + 1).toNat (p.1.roundOf x + 1) = q
+  obtain ⟨q1, got⟩ := q
+  intro hne hfalse hx3
+  simp only [] at hne hfalse hx3 ⊢
+  have hxnone : ∀ e, p.1.get x = some e → e.rr = none := h.none x (by simp)
+  have hxnot : x ∉ p.2 ++ rest := by
+    have := h.nd
+    rw [List.nodup_append] at this
+    intro hx
+    rcases List.mem_append.mp hx with hx | hx
+    · exact this.2.2 x hx x (List.mem_cons_self) rfl
+    · exact (List.nodup_cons.mp this.2.1).1 hx
+  have hfin : Final p.1 q1 := by
+    refine ⟨fun y e hy => ?_⟩
+    by_cases hyx : y = x
+    · subst hyx
+      obtain ⟨e', hg, h1, h2, h3⟩ := hx3 e hy
+      exact ⟨e', hg, fun _ => ⟨h1, h2⟩, fun _ => h3, fun hs => by rw [hxnone e hy] at hs; cases hs⟩
+    · exact ⟨e, by rw [hne y hyx]; exact hy, fun _ => ⟨rfl, rfl⟩, fun _ => rfl, fun _ => rfl⟩
+  cases got with
+  | false =>
+    simp only [Bool.false_eq_true, if_false]
+    refine ⟨by simpa using h.nd, fun y hy e he => ?_, h.fin.trans hfin⟩
+    rw [hfalse rfl y] at he
+    exact h.none y (by simpa using hy) e he
+  | true =>
+    simp only [if_true]
+    have hnd : (p.2 ++ rest).Nodup := by
+      have := h.nd
+      rw [List.nodup_append] at this ⊢
+      exact ⟨this.1, (List.nodup_cons.mp this.2.1).2, fun a ha b hb => this.2.2 a ha b (List.mem_cons_of_mem _ hb)⟩
+    refine ⟨hnd, fun y hy e he => ?_, h.fin.trans hfin⟩
+    have hyx : y ≠ x := fun hh => hxnot (hh ▸ hy)
+    rw [hne y hyx] at he
+    refine h.none y ?_ e he
+    rcases List.mem_append.mp hy with hy | hy
+    · exact List.mem_append.mpr (Or.inl hy)
+    · exact List.mem_append.mpr (Or.inr (List.mem_cons_of_mem _ hy))
+
+theorem foldl_receiveOne_ginv (s0 : St) (l : List String) (p : St × List String)
+    (h : GInv s0 p.1 p.2 l) : GInv s0 (l.foldl receiveOne p).1 (l.foldl receiveOne p).2 [] := by
+  induction l generalizing p with
+  | nil => exact h
+  | cons x l ih => exact ih _ (receiveOne_ginv s0 p x l h)
+
+theorem decideRoundReceived_final (s : St) (hu : s.undet.Nodup) (hI : NInv s) :
+    Final s s.decideRoundReceived ∧ NInv s.decideRoundReceived := by
+  unfold St.decideRoundReceived
+  have h0 : GInv s s [] s.undet := ⟨by simpa using hu, fun y hy => hI y (by simpa using hy), Final.refl s⟩
+  have := foldl_receiveOne_ginv s s.undet (s, []) h0
+  revert this
+  generalize s.undet.foldl receiveOne (s, []) = p
+  intro h
+  refine ⟨⟨fun x e hx => h.fin.ev x e hx⟩, ?_⟩
+  intro x hx e he
+  exact h.none x (by simpa using hx) e he
+
+/-! ## the ids of the stored events change only by insertion -/
+
+def idsOf (s : St) : List String := s.events.map (·.id)
+
+theorem ids_update (s : St) (id : String) (f : Ev → Ev) (hf : ∀ e, (f e).id = e.id) : idsOf (s.update id f) = idsOf s := by
+  unfold idsOf St.update
+  simp only [List.map_map]
+  apply List.map_congr_left
+  intro e _
+  simp only [Function.comp]
+  split
+  · exact hf e
+  · rfl
+
+theorem ids_of_events {s s' : St} (h : s'.events = s.events) : idsOf s' = idsOf s := by unfold idsOf; rw [h]
+
+theorem get_none_of_not_mem (s : St) (x : String) (h : x ∉ idsOf s) : s.get x = none := by
+  unfold St.get
+  split
+  · rfl
+  · rw [List.find?_eq_none]
+    intro e he hc
+    exact h (List.mem_map.mpr ⟨e, he, by simpa using hc⟩)
+
+theorem foldl_ids {α} (f : St → α → St) (h : ∀ s a, idsOf (f s a) = idsOf s) (l : List α) (s : St) :
+    idsOf (l.foldl f s) = idsOf s := by
+  induction l generalizing s with
+  | nil => rfl
+  | cons a l ih => simp only [List.foldl_cons]; rw [ih, h]
+
+theorem foldl_ids_fst {α β} (f : St × β → α → St × β) (h : ∀ p a, idsOf (f p a).1 = idsOf p.1) (l : List α) (p : St × β) :
+    idsOf (l.foldl f p).1 = idsOf p.1 := by
+  induction l generalizing p with
+  | nil => rfl
+  | cons a l ih => simp only [List.foldl_cons]; rw [ih, h]
+
+theorem fdWalk_ids (s : St) (fuel : Nat) (ah : String) (cr : Nat) (idx : Int) : idsOf (s.fdWalk fuel ah cr idx) = idsOf s := by
+  induction fuel generalizing s ah with
+  | zero => rfl
+  | succ fuel ih =>
+    unfold St.fdWalk
+    split
+    · rfl
+    · split
+      · rfl
+      · simp only []
+        have hu := ids_update s ah (fun a => { a with fd := setAt a.fd cr (some idx) }) (fun _ => rfl)
+        split
+        · exact hu
+        · rw [ih, hu]
+
+theorem walkOne_ids (cr : Nat) (idx : Int) (s : St) (c : Option Coord) : idsOf (walkOne cr idx s c) = idsOf s := by
+  unfold walkOne; split
+  · exact fdWalk_ids _ _ _ _ _
+  · rfl
+
+theorem insert_ids (s : St) (e : Ev) : idsOf (s.insert e) = e.id :: idsOf s := by
+  unfold St.insert St.insertCoords
+  simp only []
+  have h1 := foldl_ids (walkOne e.creator e.index) (walkOne_ids e.creator e.index)
+    (s.initLa e) { s with events := { e with la := s.initLa e, fd := setAt [] e.creator (some e.index) } :: s.events }
+  show idsOf (List.foldl (walkOne e.creator e.index) _ (s.initLa e)) = _
+  rw [h1]; rfl
+
+theorem assignRound_ids (s : St) (id : String) (ev : Ev) : idsOf (s.assignRound id ev) = idsOf s := by
+  unfold St.assignRound
+  simp only []
+  rw [ids_update, ids_of_events (setRound_events _ _ _), ids_update, ids_of_events (queueRound_events _ _ _)]
+  all_goals (intro e; rfl)
+
+theorem assignLamport_ids (s : St) (id : String) : idsOf (s.assignLamport id) = idsOf s := by
+  unfold St.assignLamport; split
+  · rfl
+  · rw [ids_update]; intro e; rfl
+
+theorem divideOne_ids (s : St) (id : String) : idsOf (divideOne s id) = idsOf s := by
+  unfold divideOne; split
+  · rfl
+  · simp only []
+    split <;> split <;> simp only [assignLamport_ids, assignRound_ids]
+
+theorem divideRounds_ids (s : St) : idsOf s.divideRounds = idsOf s := foldl_ids _ divideOne_ids _ _
+
+theorem decideFame_ids (s : St) : idsOf s.decideFame = idsOf s := by
+  unfold St.decideFame
+  have := foldl_ids_fst decideFameRound (fun p pr => ids_of_events (decideFameRound_events p pr)) s.pending (s, [])
+  revert this
+  generalize s.pending.foldl decideFameRound (s, []) = p
+  intro h
+  exact h
+
+theorem rrLoop_ids (s : St) (x : String) (fuel : Nat) (i : Int) : idsOf (s.rrLoop x fuel i).1 = idsOf s := by
+  induction fuel generalizing s i with
+  | zero => rfl
+  | succ fuel ih =>
+    unfold St.rrLoop
+    by_cases hgt : i > s.lastRound
+    · rw [if_pos hgt]
+    · rw [if_neg hgt]
+      cases hg : s.getRound i with
+      | none =>
+        simp only []
+        split
+        · rfl
+        · split
+          · rfl
+          · exact ih _ _
+      | some tr =>
+        simp only []
+        have hsr : idsOf (s.setRound i (tr.witnessesDecided (s.peersAt i)).2) = idsOf s := ids_of_events (setRound_events _ _ _)
+        by_cases hd : (tr.witnessesDecided (s.peersAt i)).1 = true
+        · simp only [hd, Bool.not_true, Bool.false_eq_true, if_false]
+          split
+          · show idsOf (St.setRound _ i _) = idsOf s
+            rw [ids_of_events (setRound_events _ _ _), ids_update _ x (fun e => { e with rr := some i }) (fun _ => rfl), hsr]
+          · rw [ih, hsr]
+        · simp only [hd, Bool.not_false, if_true]
+          split
+          · exact hsr
+          · split
+            · exact hsr
+            · rw [ih, hsr]
+
+theorem receiveOne_ids (p : St × List String) (x : String) : idsOf (receiveOne p x).1 = idsOf p.1 := by
+  unfold receiveOne
+  simp only []
+  exact rrLoop_ids _ _ _ _
+
+theorem decideRoundReceived_ids (s : St) : idsOf s.decideRoundReceived = idsOf s := by
+  unfold St.decideRoundReceived
+  have := foldl_ids_fst receiveOne receiveOne_ids s.undet (s, [])
+  revert this
+  generalize s.undet.foldl receiveOne (s, []) = p
+  intro h
+  exact h
+
+theorem processLoop_ids (fuel : Nat) (s : St) : idsOf (s.processLoop fuel) = idsOf s := by
+  induction fuel generalizing s with
+  | zero => rfl
+  | succ fuel ih =>
+    unfold St.processLoop
+    cases h : s.processOne with
+    | none => rfl
+    | some s' =>
+      simp only []
+      rw [ih s']
+      obtain ⟨_, _, _, _, _, hrin, _⟩ := processOne_fields s s' h
+      exact ids_of_events (congrArg (fun t => t.2.2.1) hrin)
+
+theorem runConsensus_ids (s : St) : idsOf s.runConsensus = idsOf s := by
+  unfold St.runConsensus St.processDecidedRounds
+  rw [processLoop_ids, decideRoundReceived_ids, decideFame_ids, divideRounds_ids]
+
+/-! ## everything together -/
+
+theorem runConsensus_final (s : St) (seen : List String) (hC : CInv s seen) (hI : NInv s) :
+    Final s s.runConsensus ∧ NInv s.runConsensus := by
+  unfold St.runConsensus St.processDecidedRounds
+  have k1 := divideRounds_keeps s
+  have q1 := divideRounds_quiet s
+  have k2 := decideFame_keeps s.divideRounds
+  have q2 := decideFame_quiet s.divideRounds
+  have hI2 : NInv s.divideRounds.decideFame := k2.ninv q2.undet (k1.ninv q1.undet hI)
+  have hC2 : CInv s.divideRounds.decideFame seen := q2.cinv (q1.cinv hC)
+  obtain ⟨f3, hI3⟩ := decideRoundReceived_final _ hC2.u hI2
+  have k4 := processLoop_keeps (s.divideRounds.decideFame.decideRoundReceived.pending.length + 1) s.divideRounds.decideFame.decideRoundReceived
+  exact ⟨((k1.trans k2).final.trans f3).trans k4.final, k4.ninv (processLoop_undet _ _) hI3⟩
+
+/-- the invariants carried along an insertion history -/
+structure AllInv (s : St) (seen : List String) : Prop where
+  c : CInv s seen
+  n : NInv s
+  ids : ∀ x ∈ idsOf s, x ∈ seen
+
+theorem insertAndRun_all (s : St) (e : Ev) (seen : List String) (hA : AllInv s seen) (hf : e.id ∉ seen) (hrr : e.rr = none) :
+    Final s (s.insertAndRun e).1 ∧ AllInv (s.insertAndRun e).1 (seen ++ [e.id]) := by
+  unfold St.insertAndRun
+  split
+  · exact ⟨Final.refl s, ⟨hA.c.mono (fun x hx => List.mem_append.mpr (Or.inl hx)), hA.n,
+      fun x hx => List.mem_append.mpr (Or.inl (hA.ids x hx))⟩⟩
+  · have hget : s.get e.id = none := get_none_of_not_mem s e.id (fun h => hf (hA.ids _ h))
+    have k0 := insert_keeps s e hget hrr
+    have hc1 := insert_cinv s e seen hA.c hf
+    have hn1 : NInv (s.insert e) := by
+      intro x hx
+      have hu : (s.insert e).undet = s.undet ++ [e.id] := by
+        unfold St.insert; simp only []; rw [(insertCoords_quiet s e).undet]
+      rw [hu] at hx
+      rcases List.mem_append.mp hx with hx | hx
+      · exact k0.rr_none x (hA.n x hx)
+      · have : x = e.id := by simpa using hx
+        subst this
+        exact k0.rr_none _ (fun e' he' => by rw [hget] at he'; cases he')
+    obtain ⟨f1, hn2⟩ := runConsensus_final (s.insert e) (seen ++ [e.id]) hc1 hn1
+    refine ⟨k0.final.trans f1, ⟨runConsensus_cinv _ _ hc1, hn2, ?_⟩⟩
+    intro x hx
+    rw [runConsensus_ids, insert_ids] at hx
+    rcases List.mem_cons.mp hx with hx | hx
+    · exact List.mem_append.mpr (Or.inr (by simp [hx]))
+    · exact List.mem_append.mpr (Or.inl (hA.ids x hx))
+
+theorem runAll_all (s : St) (es : List Ev) (seen : List String) (hA : AllInv s seen)
+    (hnd : (seen ++ es.map (·.id)).Nodup) (hrr : ∀ e ∈ es, e.rr = none) :
+    Final s (runAll s es) ∧ AllInv (runAll s es) (seen ++ es.map (·.id)) := by
+  induction es generalizing s seen with
+  | nil =>
+    have : runAll s [] = s := rfl
+    rw [this]
+    exact ⟨Final.refl s, by simpa using hA⟩
+  | cons e es ih =>
+    have hf : e.id ∉ seen := by
+      intro hm
+      exact (List.nodup_append.mp hnd).2.2 e.id hm e.id (by simp) rfl
+    obtain ⟨f1, hA1⟩ := insertAndRun_all s e seen hA hf (hrr e (by simp))
+    obtain ⟨f2, hA2⟩ := ih (s.insertAndRun e).1 (seen ++ [e.id]) hA1 (by simpa [List.append_assoc] using hnd)
+      (fun e' he' => hrr e' (List.mem_cons_of_mem _ he'))
+    have : runAll s (e :: es) = runAll (s.insertAndRun e).1 es := rfl
+    rw [this]
+    exact ⟨f1.trans f2, by simpa [List.append_assoc] using hA2⟩
+
+theorem init_all (g : List Nat) : AllInv (St.init g) [] where
+  c := init_cinv g
+  n := fun _ h => by cases h
+  ids := fun _ h => by cases h
+
+/-- **assigned values are final**: take any sequence of insertion attempts of fresh events (distinct
+    ids, no round received yet) into a node started from genesis, and any continuation of it. Whatever
+    round, witness flag, Lamport timestamp or round received an event has after the first part, it has
+    after the continuation. -/
+theorem values_final (g : List Nat) (es1 es2 : List Ev) (hnd : ((es1 ++ es2).map (·.id)).Nodup)
+    (hrr : ∀ e ∈ es1 ++ es2, e.rr = none) (x : String) (e : Ev)
+    (hx : (runAll (St.init g) es1).get x = some e) :
+    ∃ e', (runAll (St.init g) (es1 ++ es2)).get x = some e' ∧
+      (e.round.isSome → e'.round = e.round ∧ e'.wit = e.wit) ∧ (e.lamport.isSome → e'.lamport = e.lamport) ∧
+      (e.rr.isSome → e'.rr = e.rr) := by
+  rw [runAll_append]
+  have hnd1 : (es1.map (·.id)).Nodup := by
+    rw [List.map_append] at hnd; exact (List.nodup_append.mp hnd).1
+  obtain ⟨_, hA1⟩ := runAll_all (St.init g) es1 [] (init_all g) (by simpa using hnd1)
+    (fun e he => hrr e (List.mem_append.mpr (Or.inl he)))
+  obtain ⟨f2, _⟩ := runAll_all (runAll (St.init g) es1) es2 ([] ++ es1.map (·.id)) hA1
+    (by simpa [List.map_append] using hnd) (fun e he => hrr e (List.mem_append.mpr (Or.inr he)))
+  exact f2.ev x e hx
 
 end Babble.HG
